@@ -134,6 +134,8 @@ def run(chk):
         summaries[q] = window_summary(chk, fi, c)
         # the zero-frequency bin is recognised by `frequencies[0] == 0`, nothing else (log10(0) must never be formed)
         fpar = fi.params[0]
+        from ..tyob import leading_zero_tests
+        leading_zero_tests(chk, "R-KO-ZERO", fi, fpar, c, what="the zero-frequency bin", minimum=0)
         zt = [n for n in ast.walk(fi.node) if isinstance(n, ast.If) and isinstance(n.test, ast.Compare) and len(n.test.ops) == 1 and
               any(isinstance(x, ast.Subscript) and isinstance(x.value, ast.Name) and x.value.id == fpar and isinstance(x.slice, ast.Constant) and
                   x.slice.value == 0 for x in [n.test.left] + n.test.comparators)]
